@@ -5,6 +5,7 @@
   written out per field (required / default / Option, unknown fields ignored, duplicates rejected).
 -/
 import Vlsp.Model.Json
+import Vlsp.Generated
 
 namespace Vlsp
 open Text Json
@@ -214,6 +215,55 @@ def interpret (a : Adapter) (status : Nat) (body : Text) : Res :=
     match bodyOf a body with
     | some r => .ok r
     | none => .error .invalid
+
+/-! ### the GitHub releases API is paginated -/
+
+def trimStartC (c : Char) : Text → Text
+  | [] => []
+  | x :: xs => if x == c then trimStartC c xs else x :: xs
+
+def trimEndC (c : Char) (t : Text) : Text := (trimStartC c t.reverse).reverse
+
+/-- `next_page_url`: the target of the `rel="next"` part of a `Link` header value -/
+def nextLink (value : Text) : Option Text :=
+  (splitChar ',' value).findSome? fun part =>
+    match splitOnceChar ';' part with
+    | none => none
+    | some (target, params) =>
+      if (splitChar ';' params).any (fun p => trim p == "rel=\"next\"".toList) then
+        some (trimEndC '>' (trimStartC '<' (trim target)))
+      else none
+
+/-- the value of header `name` (lower case) in a raw header block `Name: value\r\n…` -/
+def headerValue (name : Text) (headers : Text) : Option Text :=
+  (splitOn "\r\n".toList headers).findSome? fun line =>
+    match splitOnceChar ':' line with
+    | some (n, v) => if toLowerAscii (trim n) == name then some (trim v) else none
+    | none => none
+
+/-- one HTTP exchange as the adapter sees it -/
+structure Page where
+  status : Nat
+  headers : Text
+  body : Text
+
+/-- `GitHubRegistry::fetch_all_versions`: pages are read while a `rel="next"` link is advertised, at most
+    `MAX_RELEASE_PAGES`; any page's error is the result.  Second component: the link targets followed. -/
+def githubFetchAux : (pagesLeft : Nat) → List Page → (acc : List Text) → (links : List Text) → Res × List Text
+  | _, [], acc, links => (.ok ⟨acc, []⟩, links)
+  | 0, _, acc, links => (.ok ⟨acc, []⟩, links)
+  | n + 1, pg :: rest, acc, links =>
+    match statusErr .github pg.status with
+    | some e => (.error e, links)
+    | none =>
+      match bodyOf .github pg.body with
+      | none => (.error .invalid, links)
+      | some r =>
+        match (if n == 0 then none else (headerValue "link".toList pg.headers).bind nextLink) with
+        | some target => githubFetchAux n rest (acc ++ r.versions) (links ++ [target])
+        | none => (.ok ⟨acc ++ r.versions, []⟩, links)
+
+def githubFetch (pages : List Page) : Res × List Text := githubFetchAux Generated.maxReleasePages pages [] []
 
 /-- `GitHubRegistry::fetch_tag_sha`: first page of `/repos/<name>/tags`, exact name equality -/
 def fetchTagSha (status : Nat) (body : Text) (tag : Text) : Except RegErr Text :=
